@@ -80,7 +80,7 @@ def check_zone(bodies, confirmed=None, param_ranges=None, only_kinds=None, call_
                 r = call_discharge(b, bb, t, iv, st)
                 if r:
                     ok, why = True, r
-            if not ok and k in ("slice-index", "slice-op") and st is not None:
+            if not ok and k in ("slice-index", "slice-op", "vec-op") and st is not None:
                 r = _slice_call(b, t, iv, st)
                 if r:
                     ok, why = True, r
@@ -114,6 +114,12 @@ def _range_agg(b, op):
 def _slice_call(b, t, iv, st):
     name = t.callee.split("::")[-1]
     atys = t.d.get("atys") or []
+    if name in ("index", "index_mut") and len(t.args) == 2 and len(atys) == 2 and atys[1] == "usize":
+        # Vec<T> / [T] indexed by a plain usize through the Index trait
+        lt, lr = iv.slice_len(st, t.args[0], atys[0])
+        if iv.lt_len(st, t.args[1], lt, lr):
+            return "index < len on this path"
+        return None
     if name in ("index", "index_mut") and len(t.args) == 2:
         ra = _range_agg(b, t.args[1])
         if ra is None:
@@ -133,6 +139,10 @@ def _slice_call(b, t, iv, st):
         r = iv.rng(st, t.args[1])
         if r is not None and r[0] >= 1:
             return f"chunk size in [{r[0]}, {r[1]}] is never 0"
+    if name == "insert" and len(t.args) == 3 and t.callee.startswith("alloc::vec::Vec"):
+        lt, lr = iv.slice_len(st, t.args[0], atys[0] if atys else None)
+        if iv.le_len(st, t.args[1], lt, lr):
+            return "insertion index <= len on this path"
     if name in ("split_at", "split_at_mut") and len(t.args) == 2:
         lt, lr = iv.slice_len(st, t.args[0], atys[0] if atys else None)
         if iv.le_len(st, t.args[1], lt, lr):
